@@ -1,1 +1,242 @@
-/- C19: property theorems go here (only property theorems, non-vacuity examples, #print axioms). -/
+import StorageModel.Query.BoltProofs
+import StorageModel.Generated.PagingFacts
+/-
+  C19 — In-memory object store answers queries like the bolt-backed store.
+
+  "Querying an in-memory object store with a filter, sort, skip and limit returns exactly the
+  objects, order and total count that the same query returns from a bolt-backed store holding the
+  same field values - including null handling (`= null`, `!= null`), the default id ordering and
+  every paging boundary (skip without limit, negative skip, limit none, limit 0, skip past the
+  end)."
+
+  Model: Query/Objectz.lean (ObjectCursor.Eval*/IsNil with typed nil pointers inside the interface,
+  newRowComparator, memSortingScanner.Scan = the bounded-tree scheme of Query/Paging.lean run with
+  objectz's own paging arithmetic `Generated.objectzPaging`).  Spec: `page` / `total` of the rows
+  that satisfy the filter (Query/Spec.lean, Query/Filter.lean `sat`).  `objectz_eq_bolt` combines
+  `objectz_exact` with C02's `query_ids_exact`-style lemmas for the bolt store.
+
+  Filters: the fragment of Query/Filter.lean over non-set symbols (`FilterTyped`); the whole filter
+  language is C01's subject.
+-/
+namespace StorageModel.Properties.C19
+open StorageModel StorageModel.Query
+
+/-- Obligation on regenerated data: objectz's `setPaging`, `maxResults` and eviction test have the
+    expected shape (objectz/object_store.go). -/
+theorem objectz_paging_facts_expected : Generated.objectzPaging = expectedPaging := by decide
+
+theorem boltz_paging_facts_expected : Generated.boltzPaging = expectedPaging := by decide
+
+/-- every object is well typed for the store's symbols (a symbol function of type T returns a *T) -/
+def WellTypedObjs (st : ObjStore) (objs : List Row) : Prop :=
+  ∀ r ∈ objs, ∀ n, (∃ t, st.symbols.lookup n = some t) → WellTypedAt st.symbols r n
+
+theorem filterTyped_symbol {symbols : List (String × SymType)} {f : Filter} (h : FilterTyped symbols f) {n : String}
+    (hn : f.symbol = some n) : ∃ t, symbols.lookup n = some t := by
+  cases f with
+  | tt => simp [Filter.symbol] at hn
+  | cmpBool m _ _ | cmpInt m _ _ | cmpFloat m _ _ | cmpStr m _ _ | cmpTime m _ _ =>
+    change some m = some n at hn; cases hn; exact ⟨_, h⟩
+  | isNull m | notNull m =>
+    change some m = some n at hn; cases hn
+    obtain ⟨t, ht, _⟩ := h; exact ⟨t, ht⟩
+
+/-- **null handling**: on well-typed objects the object cursor decides every filter of the fragment
+    — `= null` and `!= null` included — exactly as the specification does. -/
+theorem objectz_filter_exact (st : ObjStore) (objs : List Row) (f : Filter) (hf : FilterTyped st.symbols f)
+    (hw : WellTypedObjs st objs) : ∀ r ∈ objs, evalFilter (objSymbols st r) f = sat r f := by
+  intro r hr
+  rw [obj_eval_eq_bolt st r f hf (fun n hn => hw r hr n (filterTyped_symbol hf hn)), bolt_eval_sat]
+
+theorem objStore_hasId {st : ObjStore} (h : st.symbols.lookup "id" = some .string) : HasIdSymbol st.schema := by
+  unfold HasIdSymbol ObjStore.schema
+  generalize st.symbols = l at h
+  induction l with
+  | nil => simp at h
+  | cons p l ih =>
+    obtain ⟨n, t⟩ := p
+    simp only [List.map_cons, List.lookup] at h ⊢
+    by_cases hb : ("id" == n) = true
+    · rw [hb] at h ⊢; cases h; rfl
+    · have hb' : ("id" == n) = false := by simpa using hb
+      rw [hb'] at h ⊢; exact ih h
+
+/-- **objectz_exact.**  `QueryEntitiesC` returns the page of the objects that satisfy the filter,
+    in the requested order (nulls first ascending, ties by id), and their total number — for every
+    collection with distinct ids, in whatever order the iterator yields it, and every skip / limit. -/
+theorem objectz_exact (st : ObjStore) (objs : List Row) (q : Query) (c : Cmp Row)
+    (ho : st.objs = some objs) (hd : DistinctIds objs) (hid : st.symbols.lookup "id" = some .string)
+    (hc : newRowComparator st.schema q.sort = .ok c) (hnan : ∀ r ∈ objs, NoNaNKeys q.sort r)
+    (hf : FilterTyped st.symbols q.filter) (hw : WellTypedObjs st objs)
+    (hq : q.paging.InRange) (hlen : (objs.length : Int) ≤ maxI64) :
+    objQuery Generated.objectzPaging st q =
+      .ok (page c q.paging.skip q.paging.limit (objs.filter fun r => sat r q.filter),
+           total (objs.filter fun r => sat r q.filter)) := by
+  rw [objectz_paging_facts_expected]
+  have hstrict := newRowComparator_strict (objStore_hasId hid) hc hnan hd
+  have hm : matching (st.env q.filter) objs = objs.filter fun r => sat r q.filter := by
+    simp only [matching, ObjStore.env]
+    apply List.filter_congr
+    intro r hr
+    simp only [ScanEnv.admits, Bool.not_false, Bool.true_and]
+    exact objectz_filter_exact st objs q.filter hf hw r hr
+  have hmlen : ((matching (st.env q.filter) objs).length : Int) ≤ maxI64 := by
+    have : (matching (st.env q.filter) objs).length ≤ objs.length := List.length_filter_le ..
+    omega
+  simp only [objQuery, hc, ho]
+  rw [sortScan_spec hstrict _ _ _ hq (fun a ha => ha) hd.nodup hmlen, hm]
+
+/-- the comparator depends on the schema only through the sort symbols (and `id`) -/
+theorem resolveSort_congr {s1 s2 : Schema} {fs : List SortField}
+    (h : ∀ f ∈ fs, s1.lookup f.name = s2.lookup f.name) : resolveSort s1 fs = resolveSort s2 fs := by
+  induction fs with
+  | nil => rfl
+  | cons f rest ih =>
+    simp only [resolveSort, h f (List.mem_cons_self ..), ih fun g hg => h g (List.mem_cons_of_mem _ hg)]
+
+/-- page and total of a collection do not depend on the order the collection is presented in -/
+theorem page_perm {P : Row → Prop} {c : Cmp Row} (hc : StrictTotalOn P c) {xs ys : List Row} (h : xs.Perm ys)
+    (hP : ∀ a ∈ ys, P a) (hnd : ys.Nodup) (skip limit : Option Int) :
+    page c skip limit xs = page c skip limit ys ∧ total xs = total ys := by
+  have hs : sort c xs = sort c ys := by
+    refine sort_unique hc hP hnd ((sort_perm c xs).trans h) (sort_sorted hc (fun a ha => hP a (h.subset ha)) (h.symm.nodup hnd))
+  simp only [page, hs, total, h.length_eq, and_self]
+
+/-- **objectz_eq_bolt.**  An object store and a bolt store that hold the same rows (the object
+    store in any iteration order) and declare the sort symbols alike answer every query of the
+    fragment identically: same objects, same order, same count — whichever scanner the bolt store
+    uses. -/
+theorem objectz_eq_bolt (ost : ObjStore) (bst : BoltStore) (objs rows : List Row) (q : Query) (c : Cmp Row)
+    (ho : ost.objs = some objs) (hb : bst.bucket = some rows) (hperm : objs.Perm rows)
+    (hroot : ∀ r, bst.childSkip r = false)
+    (hord : BucketOrdered rows) (hid : ost.symbols.lookup "id" = some .string)
+    (hschema : ∀ f ∈ q.sort ++ [⟨"id", true⟩], bst.schema.lookup f.name = ost.schema.lookup f.name)
+    (hc : newRowComparator ost.schema q.sort = .ok c) (hnan : ∀ r ∈ rows, NoNaNKeys q.sort r)
+    (hf : FilterTyped ost.symbols q.filter) (hw : WellTypedObjs ost objs)
+    (hq : q.paging.InRange) (hlen : (rows.length : Int) ≤ maxI64) :
+    objQuery Generated.objectzPaging ost q =
+      (match queryIdsC Generated.boltzPaging bst q with
+       | .ok r => .ok r
+       | .error e => .err e) := by
+  have hd : DistinctIds objs := by
+    have := hord.distinct
+    unfold DistinctIds at *
+    exact hperm.symm.pairwise this (fun h => Ne.symm h)
+  have hcb : newRowComparator bst.schema q.sort = .ok c := by
+    rw [← hc]; unfold newRowComparator; rw [resolveSort_congr hschema]
+  have hidb : HasIdSymbol bst.schema := by
+    have := objStore_hasId hid
+    unfold HasIdSymbol at *
+    rw [hschema ⟨"id", true⟩ (by simp)]; exact this
+  rw [objectz_exact ost objs q c ho hd hid hc (fun r hr => hnan r (hperm.subset hr)) hf hw hq
+    (by rw [hperm.length_eq]; exact hlen)]
+  -- the bolt side, by the C02 lemmas
+  have hstrict := newRowComparator_strict hidb hcb hnan hord.distinct
+  have hbolt : queryIdsC Generated.boltzPaging bst q =
+      .ok (page c q.paging.skip q.paging.limit (rows.filter fun r => sat r q.filter),
+           total (rows.filter fun r => sat r q.filter)) := by
+    rw [boltz_paging_facts_expected]
+    have hm : matching (bst.env q.filter) rows = rows.filter fun r => sat r q.filter := by
+      simp only [matching, BoltStore.env, bolt_eval_sat]
+      apply List.filter_congr
+      intro r _
+      simp only [ScanEnv.admits, hroot, Bool.not_false, Bool.true_and]
+    have hmlen : ∀ l : List Row, l.Perm rows → ((matching (bst.env q.filter) l).length : Int) ≤ maxI64 := by
+      intro l hl
+      have : (matching (bst.env q.filter) l).length ≤ l.length := List.length_filter_le ..
+      rw [hl.length_eq] at this; omega
+    simp only [queryIdsC, hb, scanCursor]
+    cases hs : newScanner q.sort with
+    | sorting =>
+      simp only [hcb, bucketCursor, if_true]
+      rw [sortScan_spec hstrict _ _ _ hq (fun a ha => ha) hord.distinct.nodup (hmlen rows (.refl _)), hm]
+    | index fwd =>
+      simp only
+      rw [idxScan_spec _ _ _ hq (hmlen _ (bucketCursor_perm rows fwd))]
+      have hp := matching_perm (bst.env q.filter) (bucketCursor_perm rows fwd)
+      have hsorted := index_cursor_sorted hidb hs hcb hord (bst.env q.filter)
+      have hPm : ∀ a ∈ matching (bst.env q.filter) rows, a ∈ rows := fun a ha => (List.mem_filter.1 ha).1
+      have hnd : (matching (bst.env q.filter) rows).Nodup := hord.distinct.nodup.sublist List.filter_sublist
+      have heq := sort_unique hstrict hPm hnd hp hsorted
+      rw [← hm, page_eq_target c q.paging _ (hmlen rows (.refl _)), ← heq]
+      simp only [total, hp.length_eq]
+  rw [hbolt]
+  have hfp : (objs.filter fun r => sat r q.filter).Perm (rows.filter fun r => sat r q.filter) := hperm.filter _
+  have := page_perm hstrict hfp (fun a ha => (List.mem_filter.1 ha).1)
+    (hord.distinct.nodup.sublist List.filter_sublist) q.paging.skip q.paging.limit
+  simp only [this.1, this.2]
+
+/-- the iteration order of the object store (e.g. Go map order in `IterateMap`) is irrelevant -/
+theorem objectz_order_independent (st : ObjStore) (objs objs' : List Row) (q : Query) (c : Cmp Row)
+    (hperm : objs'.Perm objs) (hd : DistinctIds objs) (hid : st.symbols.lookup "id" = some .string)
+    (hc : newRowComparator st.schema q.sort = .ok c) (hnan : ∀ r ∈ objs, NoNaNKeys q.sort r)
+    (hf : FilterTyped st.symbols q.filter) (hw : WellTypedObjs st objs)
+    (hq : q.paging.InRange) (hlen : (objs.length : Int) ≤ maxI64) :
+    objQuery Generated.objectzPaging { st with objs := some objs' } q =
+      objQuery Generated.objectzPaging { st with objs := some objs } q := by
+  have hd' : DistinctIds objs' := by
+    unfold DistinctIds at *
+    exact hperm.symm.pairwise hd (fun h => Ne.symm h)
+  have hw' : WellTypedObjs { st with objs := some objs' } objs' := fun r hr => hw r (hperm.subset hr)
+  rw [objectz_exact { st with objs := some objs' } objs' q c rfl hd' hid hc (fun r hr => hnan r (hperm.subset hr)) hf hw' hq
+      (by rw [hperm.length_eq]; exact hlen),
+    objectz_exact { st with objs := some objs } objs q c rfl hd hid hc hnan hf hw hq hlen]
+  have hstrict := newRowComparator_strict (objStore_hasId hid) hc hnan hd
+  have hfp : (objs'.filter fun r => sat r q.filter).Perm (objs.filter fun r => sat r q.filter) := hperm.filter _
+  have := page_perm hstrict hfp (fun a ha => (List.mem_filter.1 ha).1)
+    (hd.nodup.sublist List.filter_sublist) q.paging.skip q.paging.limit
+  simp only [this.1, this.2]
+
+/-! ### non-vacuity, and the `IsNil` of the pinned tree -/
+
+def exSymbols : List (String × SymType) := [("id", .string), ("s", .string), ("i", .int64)]
+def exObjs : List Row :=
+  [⟨[99], [("s", .string [120]), ("i", .int64 5)]⟩,
+   ⟨[97], [("s", .nil), ("i", .nil)]⟩,
+   ⟨[98], [("s", .string []), ("i", .int32 5)]⟩]
+def exStore : ObjStore := ⟨exSymbols, some exObjs⟩
+
+def ids : ObjOutcome (List Row × Int) → Option (List Bytes × Int)
+  | .ok r => some (r.1.map (·.id), r.2)
+  | _ => none
+
+/-- `s = null sort by i desc`: only the object whose `s` function returns a nil *string matches -/
+example : ids (objQuery expectedPaging exStore ⟨.isNull "s", [⟨"i", false⟩], ⟨none, none⟩⟩) = some ([[97]], 1) := by decide
+/-- `s != null skip 1`: "" is not null; default order is id ascending -/
+example : ids (objQuery expectedPaging exStore ⟨.notNull "s", [], ⟨some 1, none⟩⟩) = some ([[99]], 2) := by decide
+
+example : DistinctIds exObjs ∧ WellTypedObjs exStore exObjs ∧ FilterTyped exSymbols (.isNull "s") := by
+  refine ⟨by unfold DistinctIds; decide, ?_, ⟨.string, by decide, by decide⟩⟩
+  intro r hr n hn
+  simp only [exObjs, List.mem_cons, List.mem_nil_iff, or_false] at hr
+  obtain ⟨t, ht⟩ := hn
+  simp only [exStore, exSymbols, List.lookup] at ht
+  unfold WellTypedAt
+  simp only [exStore, exSymbols, List.lookup]
+  split at ht
+  · next heq =>
+    have hn := eq_of_beq heq; subst hn; cases ht
+    rcases hr with rfl | rfl | rfl <;> simp [evalSym]
+  · split at ht
+    · next heq =>
+      have hn := eq_of_beq heq; subst hn; cases ht
+      rcases hr with rfl | rfl | rfl <;> simp [evalSym, Row.get, List.lookup]
+    · split at ht
+      · next heq =>
+        have hn := eq_of_beq heq; subst hn; cases ht
+        rcases hr with rfl | rfl | rfl <;> simp [evalSym, Row.get, List.lookup]
+      · cases ht
+
+/-- the `IsNil` before 83c62e4 compared the interface itself with nil: a nil *string inside the
+    interface was "not nil", so `= null` matched nothing -/
+theorem pinned_isnil_violates :
+    ifaceIsNilPinned (.stringPtr none) = false ∧ ifaceIsNil (.stringPtr none) = true := by decide
+
+end StorageModel.Properties.C19
+
+#print axioms StorageModel.Properties.C19.objectz_paging_facts_expected
+#print axioms StorageModel.Properties.C19.objectz_filter_exact
+#print axioms StorageModel.Properties.C19.objectz_exact
+#print axioms StorageModel.Properties.C19.objectz_eq_bolt
+#print axioms StorageModel.Properties.C19.objectz_order_independent
+#print axioms StorageModel.Properties.C19.pinned_isnil_violates
